@@ -19,13 +19,15 @@ import forced
 SUBSETS = [[], ["INVOKE"], ["SHUTDOWN"], ["INVOKE", "SHUTDOWN"]]
 
 
-def one(sid, rnd, nx, ni, with_dir, hold, invoke_pos):
+def one(sid, rnd, nx, ni, with_dir, hold, invoke_pos, lat=0):
     exts = ["e%d" % (i + 1) for i in range(nx)]
     files = list(exts) + ([("f1", "dir")] if with_dir else [])
     subs = {e: rnd.choice(SUBSETS) for e in exts}
     ints = {"i%d" % (i + 1): rnd.choice([[], ["INVOKE"]]) for i in range(ni)}
-    s = Scn(sid, ext=files)
-    s.meta(family="initbarrier", subs=subs, internal=ints, hold=hold)
+    # lat: Exec returns this long after the process has started, so that an extension registers while the
+    # launch loop of doInitExtensions is still running (its own Exec or a sibling's has not returned yet)
+    s = Scn(sid, ext=files, execLatencyMs=lat)
+    s.meta(family="initbarrier", subs=subs, internal=ints, hold=hold, execLatencyMs=lat)
     # arrival actions with their dependencies
     acts = []
     for e in exts:
@@ -122,7 +124,8 @@ def scenarios(ctx):
             for r in range(reps):
                 n += 1
                 hold = rnd.randrange(0, 20) if r % 2 == 1 else None
-                out.append(one("c03-%03d" % n, rnd, nx, ni, with_dir=(r % 2 == 0), hold=hold, invoke_pos=rnd.randrange(0, 20)))
+                out.append(one("c03-%03d" % n, rnd, nx, ni, with_dir=(r % 2 == 0), hold=hold, invoke_pos=rnd.randrange(0, 20),
+                               lat=30 if r % 3 == 2 else 0))
     return out
 
 
